@@ -312,6 +312,9 @@ class ReadableStream(io.RawIOBase):
             self._done = True
         self._toggle ^= TOGGLE_BIT
         self.pos += length
+        if length == 0 and not self._done:
+            # An empty segment which is not the last one is not end of file
+            return self.read(size)
         return response[1:length + 1]
 
     def readinto(self, b):
